@@ -137,6 +137,13 @@ def check(case):
     if len(ps) == 0:
         return viol("result-not-a-version-of-the-pattern", sig, detail, nt=nt, classes=tuple(classes))
     got = [with_defaults(ast, p) for p in ps]
+    # BUILD: the rule is "strictly increased" (and never shorter) - the exact successor is lexid's business (C17)
+    if len(got) == 1 and "bid" in got[0] and any(p in ("BUILD", "BLD") for p in parts):
+        g = got[0]["bid"]
+        if int(g) > int(state["bid"]) and ("BLD" in parts or len(g) >= len(state["bid"])):
+            E = dict(E, bid=g)
+            want = ref_render(ast, E)
+            detail["expected"] = want
     diffs = set()
     for g in got:
         for p in parts:
